@@ -181,9 +181,15 @@ pub mod implementations {
             .context("Expected an operation [+=,-=,*=,/=,%=]")?;
 
         if let Some(name) = args.get(1) {
-            let bundle = ctx
-                .load_variable(name)
-                .with_context(|| format!("{name} has not been mapped"))?;
+            // same order as `load`: the function's own variables, what it captured, then its callers
+            let bundle = if let Ok(var) = ctx.load_local(name) {
+                var
+            } else if let Ok(var) = ctx.load_callback_variable(name) {
+                var
+            } else {
+                ctx.load_variable(name)
+                    .with_context(|| format!("{name} has not been mapped"))?
+            };
             let value: &mut Primitive = ctx
                 .get_last_op_item_mut()
                 .context("there must be a value at the top of the stack for a `bin_op_assign`")?;
